@@ -241,11 +241,13 @@ pub fn exec_case(w: &Schema, r: &Schema, v: &J) -> J {
     let enc_ok = enc["ok"].as_bool() == Some(true);
     let mut c = json!({"v": v, "enc_ok": enc_ok});
     let mut terms = Terms::new();
+    // VERIF_TRACE=1 prints the entry point about to run (a stack overflow in the crate aborts the process)
+    let tr = std::env::var("VERIF_TRACE").is_ok();
     let runs: [(&str, Result<Result<Value, String>, String>); 3] = if enc_ok {
         [
-            ("dr", read_datum(w, r, &wire)),
-            ("cr", read_container(w, r, &val)),
-            ("vr", read_value_resolve(w, r, &wire)),
+            ("dr", { if tr { eprintln!("dr"); } read_datum(w, r, &wire) }),
+            ("cr", { if tr { eprintln!("cr"); } read_container(w, r, &val) }),
+            ("vr", { if tr { eprintln!("vr"); } read_value_resolve(w, r, &wire) }),
         ]
     } else {
         [("dr", Ok(Err("not encoded".into()))), ("cr", Ok(Err("not encoded".into()))), ("vr", Ok(Err("not encoded".into())))]
@@ -641,7 +643,30 @@ fn unions_ok(s: &J) -> bool {
         _ => true,
     }
 }
+/// the schema has a finite value (no record contains itself unconditionally)
+fn productive(s: &J, env: &HashMap<String, J>, seen: &mut Vec<String>) -> bool {
+    match sk(s) {
+        "ref" => {
+            let n = s["name"].as_str().unwrap().to_string();
+            !seen.contains(&n) && env.get(&n).map(|d| productive(d, env, seen)).unwrap_or(false)
+        }
+        "record" => {
+            seen.push(s["name"].as_str().unwrap().to_string());
+            let ok = s["fields"].as_array().unwrap().iter().all(|f| productive(&f["type"], env, seen));
+            seen.pop();
+            ok
+        }
+        "union" => s["branches"].as_array().unwrap().iter().any(|b| productive(b, env, seen)),
+        _ => true,
+    }
+}
+
 pub fn well_formed_r(s: &J) -> bool {
+    let mut env = HashMap::new();
+    defs_of(s, &mut env);
+    if !productive(s, &env, &mut vec![]) {
+        return false;
+    }
     let mut refs = HashSet::new();
     refs_of(s, &mut refs);
     let mut occ = vec![];
